@@ -22,10 +22,10 @@ def rules_for(prop):
                                            "rxsci/operators/multiplex.py"), min_instances=1), named(grp.rule_fw1, heads=("group_by",)), grp.rule_fl1,
                 named(lv.rule_lv, only=("group_by_mux._group_by.on_subscribe",)), ms.rule_ms],
         "C05": [grp.rule_roll, named(grp.rule_fw1, heads=("roll_count",)), scoped(st.rule_st2_3_4, ROLL), scoped(st.rule_st6, ROLL),
-                named(lv.rule_lv, only=("roll_mux._roll.subscribe", "roll_mux._roll_count.subscribe"))],
+                named(lv.rule_lv, only=("roll_mux._roll.subscribe", "roll_mux._roll_count.subscribe")), ms.rule_ms_states],
         "C08": [tm.rule_tm123, tm.rule_tm4, tm.rule_tm5, st.rule_st5, mx.rule_mx7],
         "C09": scan.RULES,
-        "C10": seq.RULES + [named(grp.rule_eq1, files=("rxsci/operators/distinct.py", "rxsci/operators/distinct_until_changed.py",
+        "C10": seq.RULES + [scan.rule_sc1, named(grp.rule_eq1, files=("rxsci/operators/distinct.py", "rxsci/operators/distinct_until_changed.py",
                                                        "rxsci/operators/first.py", "rxsci/operators/take.py", "rxsci/operators/last.py",
                                                        "rxsci/data/lag.py", "rxsci/data/pad.py", "rxsci/operators/start_with.py",
                                                        "rxsci/data/batch.py"), min_instances=1)],
@@ -38,13 +38,13 @@ def rules_for(prop):
         "C15": [io.rule_framing],
         "C16": [io.rule_compression],
         "C17": [io.rule_codec],
-        "C18": [cont.rule_csv_tables, cont.rule_csv_merge, cont.rule_csv_classify, cont.rule_dp7, io.rule_fr3, io.rule_fh1_file],
+        "C18": [cont.rule_csv_tables, cont.rule_csv_merge, cont.rule_csv_classify, cont.rule_dp7, io.rule_fr3, io.rule_fh1_file, io.rule_fr1],
         "C19": [cont.rule_ag7, io.rule_framing, io.rule_codec, io.rule_compression, io.rule_fr3, io.rule_fh1_file],
-        "C20": [cont.rule_pu2, seq.rule_dp6, io.rule_fh1_parquet],
+        "C20": [cont.rule_pu2, seq.rule_dp6, io.rule_fh1_parquet, scan.rule_sd1, scan.rule_sc1],
         "C06": [named(grp.rule_eq1, files=("rxsci/data/split.py",), min_instances=1), named(grp.rule_fw1, heads=("split",)), grp.rule_dp4,
-                named(lv.rule_lv, only=("split_mux._split.on_subscribe",))],
-        "C07": [grp.rule_time_split, named(grp.rule_fw1, heads=("time_split",)),
-                named(lv.rule_lv, only=("time_split_mux._time_split.on_subscribe",))],
+                named(lv.rule_lv, only=("split_mux._split.on_subscribe",)), ms.rule_ms_states],
+        "C07": [grp.rule_time_split, seq.rule_opt1_time_split, named(grp.rule_fw1, heads=("time_split",)),
+                named(lv.rule_lv, only=("time_split_mux._time_split.on_subscribe",)), ms.rule_ms_states],
     }
     return table.get(prop)
 
@@ -80,7 +80,7 @@ EXPLANATION = {
            "Next; LV (first segment opened by the first item, last one closed at parent completion iff open).",
     "C07": _COMMON + "Decided clauses: CMP-1 each timeout test normalises to new - reference - timeout >= 0 with the active reference the "
            "stored window start and the inactive one the stored last timestamp; DP-5 bookkeeping of both timestamps; ORD-1 event order per "
-           "include_closing_item and closing_mapper consulted only when not expired; FW-1; LV. Not decided: arithmetic on timestamps.",
+           "include_closing_item and closing_mapper consulted only when not expired; OPT-1 an explicit zero timeout is a timeout (only None disables one); FW-1; LV; the per-key-state obligations of the memory store. Not decided: arithmetic on timestamps.",
     "C08": _COMMON + "Decided clauses: TM-1 connect() after all len(sources) branches are subscribed; TM-2/3 one published connectable "
            "shared by all branches; TM-4 join skeleton per mode over the key's slice of n slots; TM-5 table growth to (key[0]+1)*n; ST-5 join table reset; MX-7 lifecycle "
            "de-duplication; AG-3 mux and plain joins agree. Not decided: behaviour of the branches themselves.",
